@@ -4,6 +4,7 @@
 From Coq Require Import Lia ZifyN ZifyNat ZifyBool.
 From Verif Require Import Base.Bytes Model.Chain Model.GoText Model.Envelope Model.Eval.
 From Verif Require Import Proofs.EvalLogKit Proofs.EvalTotalOrder.
+From Verif Require Proofs.RefSem2Depth.
 From Verif Require Corr.C05.
 
 (* ---- small list facts ---- *)
@@ -99,11 +100,12 @@ Proof. reflexivity. Qed.
 (* ---- the theorem ---- *)
 Theorem gate_implies_oracle_valid (insch : in_schema) (iv : chain) (xin : xval) :
   fst (validate (AccIn insch) iv) = true ->
-  export big_fuel iv = Some xin ->
+  export_t iv = Some xin ->
   x_has_unknown xin = false ->
   C05.x_valid insch xin = true.
 Proof.
-  intros Hv Hx Hu. destruct insch as [|props required closed]; [reflexivity|].
+  intros Hv Hx Hu. apply RefSem2Depth.export_t_sound in Hx. remember (cdepth iv) as F eqn:HF. clear HF.
+  destruct insch as [|props required closed]; [reflexivity|].
   destruct iv as [|l rest]; [discriminate|].
   pose proof (export_top_unk _ _ _ _ Hx) as Htop. rewrite (no_unknown_top _ Hu) in Htop.
   unfold validate in Hv. rewrite <- Htop in Hv.
@@ -117,7 +119,7 @@ Proof.
     assert (b = []) as Hextra by (apply length_zero_nil; lia);
     assert (d = []) as Hbad by (apply length_zero_nil; lia) end.
   clear Hv.
-  destruct big_fuel_S as [F HF]. rewrite HF in Hx. unfold c in Hx. rewrite export_obj_S in Hx. fold c in Hx. fold ks in Hx.
+  unfold c in Hx. rewrite export_obj_S in Hx. fold c in Hx. fold ks in Hx.
   match type of Hx with match mapM ?g ks with _ => _ end = _ => destruct (mapM g ks) as [m|] eqn:Hm; [|discriminate] end.
   injection Hx as <-. apply mapM_Forall2 in Hm.
   unfold C05.x_valid. apply andb_true_iff. split.
